@@ -246,8 +246,26 @@ fn measure(c: &Case, n: usize) -> (isize, isize, u64) {
             // arithmetic on subnormal numbers is one to two orders of magnitude slower: shorter streams for those
             // weights (still hundreds of times the capacity of the digest for the usual delta)
             let n = if wmode == 5 || wmode == 7 { n.min(30_000) } else { n };
+            // one stream in twelve: a few very heavy items with small values first, then unit weights with larger
+            // values, so that the tail of the digest carries about 1e-16 of the total weight per item (F15)
+            let heavy_first = (seed >> 8) % 12 == 0;
+            let heavy_w = [1e15f64, 3e15, 1e16, 1e14][(seed >> 12) as usize % 4];
             for i in 0..n {
                 let x = (item(i) >> 11) as f64 / (1u64 << 53) as f64;
+                if heavy_first {
+                    if i < 10 {
+                        s.insert_weighted(x * 0.1, heavy_w);
+                    } else {
+                        s.insert(0.5 + 0.5 * x);
+                    }
+                    if i == clear_pos {
+                        s.clear();
+                    }
+                    if seed % 3 == 0 && i % 97 == 96 {
+                        let _ = s.cdf(x);
+                    }
+                    continue;
+                }
                 match wmode {
                     0 | 1 => s.insert(x),
                     2 => s.insert_weighted(x, 0.5),
@@ -416,7 +434,7 @@ pub fn checks() -> Vec<Box<dyn DynCheck>> {
 }
 
 pub fn run(ctx: &Ctx) {
-    ctx.set_rule("generated: structure x configuration grid (Bloom m = 2^6..2^24; CMS w x d on five counter types; HLL all b; Cuckoo bucketsize x n_buckets x l_fingerprint in {2,3,4,5,8,9,16,32,63,64}; Quotient q x r in {1,2,5,8,16,32,50}; TDigest scale x delta x backlog x {unit, 0.5, 3, mixed, 1e-320, 1e300, mixed subnormal} weights x interleaved reads; Reservoir k; CMSHeap k x sketch; LossyCounter width) x stream length 1e3..1e5 (1e6 thorough) x optional clear() in the stream x merges/unions and failed inserts/unions on the bounded filters. Oracle: a counting global allocator (thread-local live bytes): held <= c * model(config) + 512 B (c = 2 flat arrays, 4 hash-map/tree based; model = m/8, w*d*sizeof(C), 2^b, slots*l/8, slots*(r+3)/8, (delta+backlog+4)*32, 8k, k*100+sketch, width*(H(ceil(n/width))+1)*25); held(10n) <= 1.05*held(n) + 256 B (1.5x for the hash-map/tree based CMSHeap, 2.2x for TDigest whose K2/K3 centroid count grows with ln n towards delta) for every structure except LossyCounter once n >= 10 x nominal capacity; held after clear() <= c * max(fresh, model) + 512 B. Non-trivial: stream >= 100 x nominal capacity, or packed width < 64 bits for the two packed filters. Distinct = hash of the case.");
+    ctx.set_rule("generated: structure x configuration grid (Bloom m = 2^6..2^24; CMS w x d on five counter types; HLL all b; Cuckoo bucketsize x n_buckets x l_fingerprint in {2,3,4,5,8,9,16,32,63,64}; Quotient q x r in {1,2,5,8,16,32,50}; TDigest scale x delta x backlog x {unit, 0.5, 3, mixed, 1e-320, 1e300, mixed subnormal, ten items of weight 1e14..1e16 followed by unit weights} weights x interleaved reads; Reservoir k; CMSHeap k x sketch; LossyCounter width) x stream length 1e3..1e5 (1e6 thorough) x optional clear() in the stream x merges/unions and failed inserts/unions on the bounded filters. Oracle: a counting global allocator (thread-local live bytes): held <= c * model(config) + 512 B (c = 2 flat arrays, 4 hash-map/tree based; model = m/8, w*d*sizeof(C), 2^b, slots*l/8, slots*(r+3)/8, (delta+backlog+4)*32, 8k, k*100+sketch, width*(H(ceil(n/width))+1)*25); held(10n) <= 1.05*held(n) + 256 B (1.5x for the hash-map/tree based CMSHeap, 2.2x for TDigest whose K2/K3 centroid count grows with ln n towards delta) for every structure except LossyCounter once n >= 10 x nominal capacity; held after clear() <= c * max(fresh, model) + 512 B. Non-trivial: stream >= 100 x nominal capacity, or packed width < 64 bits for the two packed filters. Distinct = hash of the case.");
     ctx.assume("'small constant factor' read as c = 2 (flat arrays) / c = 4 (hash-map and tree based structures)");
     ctx.run_regressions(&[&C11]);
     let t = ctx.tier;
